@@ -149,5 +149,5 @@ Print Assumptions C13_echo_foreign_ignored.
 
 (* no out-of-range read or slice in either handleICMP, whatever arrives *)
 Theorem C13_no_panic : forall r views, handleICMP4 views <> None /\ handleICMP6 r views <> None.
-Proof. exact (fun r views => conj (handleICMP4_no_panic views) (handleICMP6_no_panic r views)). Qed.
+Proof. exact no_panic_l. Qed.
 Print Assumptions C13_no_panic.
